@@ -10,18 +10,7 @@ package keeper
 //@ import common "github.com/ethereum/go-ethereum/common"
 //@ import evmtypes "github.com/EscanBE/evermint/v12/x/evm/types"
 
-// keeper.go genericSetBoolFlagTransient: Set(key, {1}) / Delete(key) on the transient store of ctx's layer; the three
-// flag keys are distinct constants (evmtypes.KeyTransient*), so one flag is written and the others are untouched.
-//@ func (k Keeper) SetFlagSenderNonceIncreasedByAnteHandle(ctx sdk.Context, increased bool)
-//@   assumed
-//@   modifies trFlagNonce[layer(ctx)]
-//@   ensures trFlagNonce[layer(ctx)] == increased
-//@   panics never
-//@ func (k Keeper) SetFlagSenderPaidTxFeeInAnteHandle(ctx sdk.Context, paid bool)
-//@   assumed
-//@   modifies trFlagPaid[layer(ctx)]
-//@   ensures trFlagPaid[layer(ctx)] == paid
-//@   panics never
+// (SetFlagSenderNonceIncreasedByAnteHandle / SetFlagSenderPaidTxFeeInAnteHandle: summaries in verif_contracts.go)
 
 // params.go GetEip155ChainId: the stored chain id (panics "chain ID not set" when it is 0: never after InitGenesis).
 //@ ghost var evmChainId map[int]int
